@@ -406,6 +406,7 @@ def run(repo='/repo', tier='quick'):
     c01i(db, res, own)
     from . import c01j
     c01j.run(db, res)
+    c01j.run_reads(db, res)
     try:
         from . import c01b
         c01b.run(db, res)
